@@ -165,6 +165,19 @@ def canon_notes(it):
     return [canon(n) for n in it]
 
 
+def prewalk(obj, data):
+    """Before the observed walk, partially consume iter_notes() on the SAME object (0, 1 or 2 notes, chosen from a hash of the
+    image so that a replay does the same): every walk must yield every note, whatever an earlier walk consumed or abandoned."""
+    import hashlib
+    k = hashlib.sha1(data).digest()[0] % 3
+    try:
+        it = obj.iter_notes()
+        for _ in range(k):
+            next(it)
+    except Exception:      # noqa: BLE001 — errors are judged on the observed walk
+        pass
+
+
 def impl_views(data, secname=SECNAME):
     """(section view, segment view) of the real library on a file image."""
     from elftools.elf.elffile import ELFFile
@@ -175,12 +188,14 @@ def impl_views(data, secname=SECNAME):
         ef = ELFFile(io.BytesIO(data))
         s = ef.get_section_by_name(secname)
         assert isinstance(s, NoteSection)
+        prewalk(s, data)
         return canon_notes(s.iter_notes())
 
     def seg():
         ef = ELFFile(io.BytesIO(data))
         segs = [s for s in ef.iter_segments() if isinstance(s, NoteSegment)]
         assert len(segs) == 1
+        prewalk(segs[0], data)
         return canon_notes(segs[0].iter_notes())
     return run_impl(sec), run_impl(seg)
 
